@@ -1,6 +1,6 @@
 (* Extraction of the C09 model (and the boolean hypotheses of the theorems) for the correspondence check. *)
 From V.lib Require Import Base.
-From V.c09 Require Import C09Model C09Spec C09BuildModel.
+From V.c09 Require Import C09Model C09Spec C09BuildModel C09PureModel.
 Require Import ExtrOcamlBasic.
 Separate Extraction
   tables stsc_box ctts_box stsz_box chunk sample range
@@ -11,4 +11,5 @@ Separate Extraction
   stsc_get_sample_description_id stsc_get_sample_description_id_pinned trak_get_sample_data trak_get_sample_data_pinned trak_get_ranges trak_chunk_offset
   consistent deltas_positive
   ctts_empty ctts_run ctts_table stsc_empty stsc_call stsc_call_res stsc_run stsc_table stsc_of_table
-  nz sdis stsc_call_ok rows_ok raw_ok ctts_call_ok nchunks.
+  nz sdis stsc_call_ok rows_ok raw_ok ctts_call_ok nchunks
+  fstate query answer run run_all eval.
